@@ -60,6 +60,23 @@ def validators(size):
     return etag, formatdate(MTIME, usegmt=True)
 
 
+def own_etag(size):
+    return '"own-%d-%d"' % (MTIME, size)
+
+
+def _cls(base, case):
+    """the FileResponse class of the case: the stock one, or a subclass with its own entity tag"""
+    data, etag = case[4], case[6]
+    if etag == validators(len(data))[0]:
+        return base
+
+    class Own(base):
+        @staticmethod
+        def generate_etag(stat_result):
+            return "own-%d-%d" % (MTIME, stat_result.st_size)
+    return Own
+
+
 def mk(head, rng, ifr, size, cs, ctype="text/plain", name=None):
     etag, lm = validators(size)
     disp = None
@@ -111,6 +128,16 @@ def cases(tier, rng):
             for h in (None, "bytes=1-3", "bytes=0-0,2-3", "bytes=9-", "bytes=x", ""):
                 for head in (False, True):
                     yield "if-range", mk(head, h, ifr, size, 3)
+    # (c') a subclass with an entity tag of its own (generate_etag is the hook for that): the tag the response announces is the
+    # validator, the stock formula's tag is not
+    for size in (5, 8):
+        own = own_etag(size)
+        for ifr in (own, validators(size)[0], validators(size)[1], "W/" + own, own.strip('"')):
+            for h in (None, "bytes=1-3", "bytes=0-0,2-3", "bytes=9-"):
+                for head in (False, True):
+                    c = mk(head, h, ifr, size, 3)
+                    c[6] = own
+                    yield "own-etag", c
     # (d) sizes around multiples of the chunk size, whole / suffix / open ranges
     for cs in css:
         for size in sorted({0, 1, cs - 1, cs, cs + 1, 2 * cs - 1, 2 * cs, 2 * cs + 1, 3 * cs}):
@@ -198,7 +225,7 @@ def run_wsgi(case, head):
     _, _, rng, ifr, data, cs, etag, lm, ctype, disp, boundary, name = case[:12]
     path = file_for(data)
     st = os.stat(path)
-    resp = W.FileResponse(path, content_type=ctype, download_name=name or None, chunk_size=cs, stat_result=st if (len(data) + cs) % 2 else None)   # None: the constructor stats the file itself
+    resp = _cls(W.FileResponse, case)(path, content_type=ctype, download_name=name or None, chunk_size=cs, stat_result=st if (len(data) + cs) % 2 else None)   # None: the constructor stats the file itself
     for phead, prng, pifr in prelude(case):
         # a FileResponse object may serve as an application: it has answered other requests before this one
         penv = util.wsgi_environ("HEAD" if phead else "GET")
@@ -227,7 +254,7 @@ def run_asgi(case, head, zc):
     _, _, rng, ifr, data, cs, etag, lm, ctype, disp, boundary, name = case[:12]
     path = file_for(data)
     st = os.stat(path)
-    resp = A.FileResponse(path, content_type=ctype, download_name=name or None, chunk_size=cs, stat_result=st if (len(data) + cs) % 2 else None)   # None: the constructor stats the file itself
+    resp = _cls(A.FileResponse, case)(path, content_type=ctype, download_name=name or None, chunk_size=cs, stat_result=st if (len(data) + cs) % 2 else None)   # None: the constructor stats the file itself
     for pi, (phead, prng, pifr) in enumerate(prelude(case)):
         phs = [(b"range", prng[0].encode("latin-1"))] if prng else []
         if pifr:
